@@ -124,6 +124,15 @@ def same(a: t.Any, b: t.Any, path: str = '$') -> t.Optional[str]:
     if tb in (set, frozenset):
         if len(a) != len(b):
             return f"{path}: set size {len(a)} != {len(b)}"
+        if any(isinstance(y, (Inst, VolImage)) or hasattr(y, '__pane_info__') for y in b):
+            # elements that are (images of) dataclass instances: match them up with same()
+            rest = list(a)
+            for y in b:
+                hit = next((i for (i, x) in enumerate(rest) if same(x, y) is None), None)
+                if hit is None:
+                    return f"{path}: no element matches {y!r:.80}"
+                rest.pop(hit)
+            return None
         ka = sorted((_ckey(x) for x in a), key=repr)
         kb = sorted((_ckey(x) for x in b), key=repr)
         if ka != kb:
